@@ -28,6 +28,8 @@ theorem head_stripOp (op : COp) : (stripOp op).head = op.head := by
   | drop c => rfl
   | adv ms => rfl
   | probe => rfl
+  | incr => rfl
+  | inner sc r => rfl
 
 theorem map_head_stripOp (ops : List COp) : (ops.map stripOp).map COp.head = ops.map COp.head := by
   simp only [List.map_map]
